@@ -632,3 +632,27 @@ def unordered_safe(ctx, rule, src_tree, cls, func, store_target, what, site_pref
         ok = pos >= 1 and not bad
         ctx.ob(rule, ok, f"{site_prefix}:{s.lineno}", what, detail="" if ok else ("; ".join(bad) or "no order comparison on the value is required to hold") +
                " — an unordered value (NaN from json.loads) gets through", key=key)
+
+
+def falls_through(stmts):
+    """can control reach the end of this statement list (syntactically: return / raise / continue / break leave; an if leaves when both arms do; a try leaves
+    when its body-or-else and every handler do, or its finally does; loops are assumed to end unless `while True` without break)"""
+    for st in stmts:
+        if isinstance(st, (ast.Return, ast.Raise, ast.Continue, ast.Break)):
+            return False
+        if isinstance(st, ast.If):
+            if not falls_through(st.body) and st.orelse and not falls_through(st.orelse):
+                return False
+        elif isinstance(st, (ast.With, ast.AsyncWith)):
+            if not falls_through(st.body):
+                return False
+        elif isinstance(st, ast.Try):
+            if st.finalbody and not falls_through(st.finalbody):
+                return False
+            main = falls_through(st.body) and (not st.orelse or falls_through(st.orelse)) if st.orelse else falls_through(st.body)
+            if not main and all(not falls_through(h.body) for h in st.handlers):
+                return False
+        elif isinstance(st, ast.While) and isinstance(st.test, ast.Constant) and st.test.value is True:
+            if not any(isinstance(x, ast.Break) for x in ast.walk(st)):
+                return False
+    return True
